@@ -151,6 +151,10 @@ class CallMixin:
             r = contract(self, fv, args, kwargs, node)
             if r is not None:
                 return r
+        summ = getattr(self, "accept_summary", None)
+        if summ is not None and func.name == "__accept__" and args and fv.self_val is not None \
+                and summ(fv.self_val, args[0]):
+            return self.accept(fv.self_val, args, kwargs, node)
         depth = len(self.stack)
         on_stack = sum(1 for f in self.stack if f.func is not None and f.func.qualname == func.qualname)
         if depth >= self.max_depth or on_stack >= 1:
